@@ -264,3 +264,60 @@ Fixpoint sem_transforms (ts : list tplan) (cw h : Z) : list transform * Z :=
 Definition sem (p : plan) : image :=
   let '(ts, cw) := sem_transforms (p_transforms p) (p_w p) (p_h p) in
   mkimage (p_w p) (p_h p) (apply_inverse ts (sem_eimg cw (p_main p))).
+
+(* ------------------------------------------------------------------ *)
+(** * The theorem the emitter and the specification decoder are meant to satisfy
+      (stated; proved on a generated example only — the harness evaluates it on
+      every generated plan, see harness/c03). *)
+
+Definition emit_decode_statement (wf_plan : plan -> Prop) : Prop :=
+  forall p, wf_plan p -> decode (emit p) = Ok (sem p).
+
+(** A generated plan with three transforms (predictor, colour indexing without
+    packing, cross-colour), a meta prefix image with several groups, colour cache,
+    cache and copy tokens, simple and normal codes with run-length tokens. *)
+Definition ex_plan : plan :=
+  mkplan 4 5 0
+  [TPPred 8 (mkeplan 0
+    [[CNormal 19 [5; 0; 0; 0; 6; 4; 6; 5; 2; 5; 4; 6; 3; 5; 6; 4; 0; 2; 0] (-1) [CLlit 0; CLlit 14; CLlit 14; CLlit 11; CLlit 10; CLlit 12; CLlit 0; CLlit 11; CLlit 10; CLlit 9; CLlit 10; CLlit 11; CLlit 10; CLlit 0; CLlit 13; CLlit 0; CLlit 12; CLrep17 4; CLlit 11; CLlit 0; CLlit 5; CLlit 0; CLlit 5; CLlit 10; CLlit 11; CLrep17 4; CLlit 8; CLrep17 3; CLlit 10; CLlit 13; CLlit 12; CLlit 10; CLlit 10; CLlit 0; CLlit 0; CLlit 5; CLlit 0; CLlit 11; CLlit 10; CLlit 11; CLrep17 3; CLlit 5; CLlit 13; CLlit 10; CLlit 10; CLlit 11; CLlit 9; CLlit 13; CLlit 0; CLlit 7; CLlit 6; CLlit 10; CLlit 7; CLlit 11; CLlit 10; CLlit 7; CLlit 8; CLlit 0; CLlit 10; CLlit 5; CLlit 11; CLlit 11; CLlit 9; CLlit 14; CLlit 0; CLlit 5; CLlit 11; CLlit 0; CLlit 11; CLlit 4; CLlit 8; CLlit 12; CLlit 11; CLrep17 3; CLlit 0; CLlit 9; CLlit 5; CLlit 8; CLlit 7; CLlit 0; CLlit 7; CLlit 0; CLlit 5; CLlit 8; CLlit 9; CLlit 0; CLlit 0; CLlit 11; CLlit 0; CLlit 0; CLlit 12; CLlit 8; CLlit 8; CLlit 14; CLlit 13; CLlit 12; CLlit 8; CLlit 12; CLlit 6; CLlit 0; CLlit 11; CLlit 8; CLlit 9; CLlit 7; CLlit 0; CLlit 0; CLlit 6; CLlit 6; CLlit 11; CLlit 10; CLlit 0; CLlit 7; CLlit 13; CLlit 12; CLlit 7; CLlit 0; CLlit 10; CLlit 14; CLrep17 3; CLlit 8; CLlit 13; CLlit 9; CLlit 0; CLlit 10; CLlit 12; CLlit 10; CLlit 0; CLlit 13; CLlit 12; CLrep17 3; CLlit 12; CLlit 7; CLlit 0; CLlit 0; CLlit 13; CLlit 11; CLlit 11; CLlit 11; CLlit 0; CLlit 6; CLlit 0; CLlit 8; CLlit 0; CLlit 8; CLlit 13; CLlit 0; CLlit 13; CLlit 14; CLlit 0; CLlit 0; CLlit 12; CLlit 9; CLlit 0; CLlit 14; CLlit 0; CLlit 11; CLlit 10; CLlit 0; CLlit 11; CLlit 7; CLlit 11; CLlit 9; CLlit 0; CLlit 14; CLlit 12; CLlit 0; CLlit 0; CLlit 7; CLlit 11; CLlit 11; CLlit 0; CLlit 0; CLlit 8; CLlit 5; CLlit 13; CLlit 10; CLlit 11; CLlit 11; CLlit 14; CLlit 8; CLlit 9; CLlit 5; CLlit 6; CLlit 11; CLlit 5; CLrep17 4; CLlit 12; CLlit 8; CLlit 12; CLlit 11; CLlit 9; CLlit 12; CLlit 10; CLlit 0; CLlit 0; CLlit 8; CLlit 15; CLlit 0; CLlit 4; CLlit 12; CLrep17 3; CLlit 8; CLlit 4; CLrep17 3; CLlit 8; CLlit 13; CLrep17 4; CLlit 11; CLlit 13; CLlit 0; CLlit 8; CLlit 0; CLlit 0; CLlit 12; CLlit 11; CLlit 11; CLlit 5; CLlit 0; CLlit 0; CLlit 12; CLlit 8; CLlit 5; CLlit 11; CLlit 7; CLlit 13; CLlit 0; CLlit 10; CLlit 13; CLlit 5; CLlit 10; CLlit 11; CLlit 10; CLlit 13; CLlit 12; CLrep17 3; CLlit 0; CLlit 12; CLlit 0; CLlit 0; CLlit 9; CLlit 10; CLlit 10; CLlit 0; CLlit 6; CLlit 0; CLlit 9; CLlit 15; CLlit 0; CLlit 9; CLlit 11; CLlit 11; CLlit 6];
+      CSimple [184; 112];
+      CSimple [200];
+      CSimple [32];
+      CSimple [21; 26]]]
+    [TLit (mkpx 32 184 5 200)]);
+   TPIndex 151 (mkeplan 0
+    [[CNormal 19 [7; 0; 0; 7; 5; 7; 7; 3; 7; 7; 3; 7; 2; 6; 7; 3; 2; 7; 7] (3) [CLlit 14; CLlit 9; CLlit 0; CLlit 10; CLrep17 3; CLlit 0; CLlit 11; CLlit 12; CLlit 0; CLlit 8; CLlit 0; CLlit 11; CLlit 0; CLlit 0; CLlit 0; CLlit 9; CLlit 7; CLlit 0; CLlit 7; CLlit 0; CLlit 7; CLlit 0; CLlit 5; CLlit 13; CLlit 13; CLlit 5; CLlit 0; CLlit 13; CLlit 5; CLlit 0; CLlit 0; CLlit 9; CLlit 0; CLlit 12; CLlit 6; CLlit 0; CLlit 0; CLlit 6; CLlit 10; CLlit 0; CLlit 8; CLlit 6; CLrep17 4; CLlit 7; CLlit 0; CLlit 11; CLlit 0; CLlit 0; CLlit 9; CLlit 13; CLlit 0; CLlit 12; CLlit 0; CLlit 14; CLlit 0; CLlit 8; CLlit 0; CLlit 12; CLlit 9; CLlit 0; CLlit 0; CLlit 0; CLlit 12; CLlit 5; CLlit 0; CLlit 13; CLlit 8; CLlit 9; CLlit 0; CLlit 0; CLlit 6; CLlit 0; CLlit 11; CLlit 12; CLlit 11; CLlit 0; CLlit 12; CLlit 9; CLlit 0; CLlit 12; CLlit 0; CLlit 0; CLlit 13; CLrep17 3; CLlit 0; CLlit 13; CLlit 0; CLlit 0; CLlit 9; CLlit 11; CLlit 0; CLlit 0; CLlit 9; CLlit 9; CLlit 11; CLlit 0; CLlit 0; CLlit 9; CLlit 0; CLlit 7; CLlit 9; CLlit 13; CLlit 11; CLlit 14; CLlit 10; CLlit 0; CLrep17 5; CLlit 5; CLlit 0; CLlit 15; CLlit 3; CLlit 0; CLlit 0; CLlit 13; CLlit 0; CLlit 8; CLlit 0; CLlit 0; CLlit 7; CLlit 9; CLlit 5; CLrep17 5; CLlit 0; CLlit 0; CLlit 9; CLlit 6; CLlit 0; CLlit 0; CLlit 14; CLlit 0; CLlit 6; CLlit 10; CLrep17 3; CLlit 9; CLrep17 5; CLlit 7; CLlit 15; CLlit 11; CLlit 0; CLlit 13; CLlit 0; CLlit 0; CLlit 12; CLlit 0; CLlit 10; CLlit 0; CLlit 0; CLlit 5; CLlit 0; CLlit 13; CLlit 0; CLlit 0; CLrep17 7; CLlit 7; CLlit 0; CLlit 5; CLlit 0; CLlit 5; CLlit 0; CLlit 0; CLlit 5; CLlit 3; CLlit 12; CLlit 0; CLlit 0; CLlit 11; CLlit 11; CLlit 0; CLlit 13; CLlit 10; CLrep17 3; CLlit 8; CLlit 0; CLlit 0; CLlit 7; CLlit 0; CLlit 4; CLlit 0; CLlit 5; CLlit 7; CLlit 0; CLlit 9; CLrep17 5; CLlit 11; CLlit 0; CLlit 0; CLlit 6; CLlit 7; CLlit 11; CLlit 5; CLlit 8; CLrep17 3; CLlit 10; CLlit 8; CLlit 7; CLlit 9; CLlit 0; CLlit 10; CLlit 9; CLlit 0; CLrep17 3; CLlit 7; CLlit 0; CLlit 8; CLlit 14; CLlit 9; CLlit 13; CLlit 10; CLlit 0; CLlit 0; CLlit 8; CLlit 9; CLlit 8; CLrep18 11];
+      CSimple [65; 101];
+      CSimple [254];
+      CSimple [68];
+      CSimple [24; 13]]]
+    [TLit (mkpx 68 65 84 254); TLit (mkpx 68 65 243 254); TLit (mkpx 68 65 210 254); TLit (mkpx 68 65 70 254); TLit (mkpx 68 65 62 254); TLit (mkpx 68 65 156 254); TLit (mkpx 68 65 205 254); TLit (mkpx 68 65 184 254); TLit (mkpx 68 65 50 254); TLit (mkpx 68 65 109 254); TLit (mkpx 68 65 30 254); TLit (mkpx 68 65 24 254); TLit (mkpx 68 65 27 254); TLit (mkpx 68 65 92 254); TLit (mkpx 68 65 249 254); TLit (mkpx 68 65 189 254); TLit (mkpx 68 65 111 254); TLit (mkpx 68 65 180 254); TLit (mkpx 68 65 8 254); TLit (mkpx 68 65 244 254); TLit (mkpx 68 65 160 254); TLit (mkpx 68 65 35 254); TLit (mkpx 68 65 78 254); TLit (mkpx 68 65 26 254); TLit (mkpx 68 65 50 254); TLit (mkpx 68 65 140 254); TLit (mkpx 68 65 40 254); TLit (mkpx 68 65 241 254); TLit (mkpx 68 65 96 254); TLit (mkpx 68 65 223 254); TLit (mkpx 68 65 126 254); TLit (mkpx 68 65 163 254); TLit (mkpx 68 65 25 254); TLit (mkpx 68 65 72 254); TLit (mkpx 68 65 227 254); TLit (mkpx 68 65 106 254); TLit (mkpx 68 65 238 254); TLit (mkpx 68 65 220 254); TLit (mkpx 68 65 1 254); TLit (mkpx 68 65 120 254); TLit (mkpx 68 65 0 254); TLit (mkpx 68 65 193 254); TLit (mkpx 68 65 216 254); TLit (mkpx 68 65 220 254); TLit (mkpx 68 65 11 254); TLit (mkpx 68 65 20 254); TLit (mkpx 68 65 200 254); TLit (mkpx 68 65 9 254); TLit (mkpx 68 65 11 254); TLit (mkpx 68 65 111 254); TLit (mkpx 68 65 180 254); TLit (mkpx 68 65 196 254); TLit (mkpx 68 65 230 254); TLit (mkpx 68 65 165 254); TLit (mkpx 68 65 36 254); TLit (mkpx 68 65 188 254); TLit (mkpx 68 65 29 254); TLit (mkpx 68 65 22 254); TLit (mkpx 68 65 71 254); TLit (mkpx 68 65 232 254); TLit (mkpx 68 65 189 254); TLit (mkpx 68 65 205 254); TLit (mkpx 68 65 240 254); TLit (mkpx 68 65 143 254); TLit (mkpx 68 65 158 254); TLit (mkpx 68 65 228 254); TLit (mkpx 68 65 139 254); TLit (mkpx 68 65 221 254); TLit (mkpx 68 65 68 254); TLit (mkpx 68 65 87 254); TLit (mkpx 68 65 60 254); TLit (mkpx 68 65 203 254); TLit (mkpx 68 65 42 254); TLit (mkpx 68 65 120 254); TLit (mkpx 68 65 72 254); TLit (mkpx 68 65 130 254); TLit (mkpx 68 65 229 254); TLit (mkpx 68 65 87 254); TLit (mkpx 68 65 146 254); TLit (mkpx 68 65 107 254); TLit (mkpx 68 65 146 254); TLit (mkpx 68 65 222 254); TLit (mkpx 68 65 33 254); TLit (mkpx 68 65 121 254); TLit (mkpx 68 65 101 254); TLit (mkpx 68 65 219 254); TLit (mkpx 68 65 53 254); TLit (mkpx 68 65 118 254); TLit (mkpx 68 65 208 254); TLit (mkpx 68 65 78 254); TLit (mkpx 68 65 79 254); TLit (mkpx 68 65 131 254); TLit (mkpx 68 65 95 254); TLit (mkpx 68 65 182 254); TLit (mkpx 68 65 129 254); TLit (mkpx 68 65 68 254); TLit (mkpx 68 65 248 254); TLit (mkpx 68 65 108 254); TLit (mkpx 68 65 17 254); TLit (mkpx 68 65 131 254); TLit (mkpx 68 65 207 254); TLit (mkpx 68 65 189 254); TLit (mkpx 68 65 77 254); TLit (mkpx 68 65 104 254); TLit (mkpx 68 65 126 254); TLit (mkpx 68 65 157 254); TLit (mkpx 68 65 131 254); TLit (mkpx 68 65 42 254); TLit (mkpx 68 65 168 254); TLit (mkpx 68 65 58 254); TLit (mkpx 68 65 82 254); TLit (mkpx 68 65 187 254); TLit (mkpx 68 65 124 254); TLit (mkpx 68 65 18 254); TLit (mkpx 68 65 100 254); TLit (mkpx 68 65 20 254); TLit (mkpx 68 65 216 254); TLit (mkpx 68 65 67 254); TLit (mkpx 68 65 48 254); TLit (mkpx 68 65 39 254); TLit (mkpx 68 65 56 254); TLit (mkpx 68 65 39 254); TLit (mkpx 68 65 242 254); TLit (mkpx 68 65 229 254); TLit (mkpx 68 65 43 254); TLit (mkpx 68 65 232 254); TLit (mkpx 68 65 195 254); TLit (mkpx 68 65 13 254); TLit (mkpx 68 65 3 254); TLit (mkpx 68 65 240 254); TLit (mkpx 68 65 99 254); TLit (mkpx 68 65 63 254); TLit (mkpx 68 65 170 254); TLit (mkpx 68 65 75 254); TLit (mkpx 68 65 184 254); TLit (mkpx 68 65 35 254); TLit (mkpx 68 65 150 254); TLit (mkpx 68 65 192 254); TLit (mkpx 68 65 233 254); TLit (mkpx 68 65 11 254); TLit (mkpx 68 65 81 254); TLit (mkpx 68 65 247 254); TLit (mkpx 68 65 39 254); TLit (mkpx 68 65 95 254); TLit (mkpx 68 65 168 254); TLit (mkpx 68 65 131 254); TLit (mkpx 68 65 243 254); TLit (mkpx 68 65 110 254); TLit (mkpx 68 65 145 254); TLit (mkpx 68 65 54 254); TLit (mkpx 68 65 99 254)]);
+   TPCross 9 (mkeplan 11
+    [[CSimple [16; 154];
+      CSimple [170; 146];
+      CSimple [125; 66];
+      CNormal 14 [2; 2; 0; 0; 0; 0; 0; 0; 0; 0; 3; 0; 0; 0; 0; 0; 0; 2; 3] (-1) [CLrep18 17; CLrep18 88; CLrep18 41; CLrep17 3; CLrep18 17; CLrep17 5; CLlit 0; CLrep17 3; CLlit 0; CLlit 1; CLrep18 38; CLrep17 6; CLlit 0; CLlit 0; CLlit 1; CLrep18 29; CLrep17 3];
+      CSimple [17]]]
+    [TLit (mkpx 223 170 16 66)])]
+  (Some (5, (mkeplan 0
+    [[CSimple [1];
+      CSimple [131; 0];
+      CSimple [80; 31];
+      CNormal 15 [2; 0; 5; 5; 3; 4; 6; 3; 7; 2; 6; 7; 0; 0; 0; 0; 7; 7; 4] (-1) [CLrep17 7; CLrep18 12; CLlit 8; CLlit 0; CLrep17 3; CLlit 4; CLrep17 4; CLrep17 4; CLlit 0; CLlit 0; CLlit 9; CLrep17 5; CLlit 5; CLlit 5; CLrep18 15; CLlit 7; CLlit 2; CLrep18 27; CLrep17 10; CLlit 7; CLrep17 7; CLlit 7; CLrep18 17; CLrep17 3; CLlit 0; CLlit 0; CLlit 7; CLlit 4; CLrep17 3; CLlit 0; CLlit 5; CLrep18 16; CLlit 0; CLlit 7; CLrep17 5; CLlit 9; CLrep18 13; CLlit 4; CLrep18 11; CLrep17 3; CLlit 5; CLrep17 8; CLlit 0; CLlit 0; CLlit 5; CLrep17 5; CLlit 0; CLlit 0; CLlit 6; CLrep17 3; CLrep17 6; CLlit 0; CLlit 4; CLrep17 6; CLrep17 3; CLlit 6; CLrep17 5; CLlit 7; CLrep18 11; CLlit 2; CLrep17 3; CLrep17 3; CLlit 7; CLrep17 3];
+      CSimple [26; 19]]]
+    [TLit (mkpx 105 0 1 31)])))
+  (mkeplan 6
+    [[CSimple [66; 221];
+      CSimple [6];
+      CSimple [202];
+      CSimple [21];
+      CSimple [2; 15]];
+     [CNormal 19 [7; 0; 0; 3; 0; 3; 4; 6; 4; 7; 4; 3; 0; 0; 0; 5; 0; 3; 2] (6) [CLrep17 3; CLrep17 3; CLlit 3; CLlit 0; CLlit 6; CLrep17 4; CLrep17 3; CLlit 5; CLlit 0; CLlit 9; CLrep17 4; CLlit 3; CLlit 5; CLrep18 20; CLlit 0; CLlit 9; CLlit 0; CLlit 9; CLlit 0; CLlit 5; CLlit 0; CLlit 9; CLlit 0; CLlit 0; CLlit 5; CLrep18 11; CLrep17 6; CLlit 0; CLlit 7; CLrep17 3; CLlit 3; CLlit 0; CLlit 0; CLlit 9; CLrep17 3; CLlit 9; CLrep17 3; CLlit 5; CLlit 0; CLlit 8; CLrep17 5; CLlit 0; CLlit 0; CLlit 8; CLrep17 3; CLlit 6; CLlit 0; CLlit 10; CLrep17 3; CLrep17 4; CLlit 6; CLlit 0; CLlit 0; CLlit 9; CLlit 0; CLlit 0; CLlit 8; CLlit 0; CLlit 0; CLlit 0; CLlit 0; CLlit 8; CLlit 7; CLrep18 22; CLlit 0; CLlit 0; CLlit 6; CLlit 9; CLlit 0; CLlit 0; CLlit 7; CLrep18 13; CLrep17 6; CLlit 0; CLlit 0; CLlit 7; CLlit 0; CLlit 0; CLrep17 7; CLlit 5; CLrep17 5; CLrep17 4; CLlit 3; CLrep17 4; CLlit 7; CLrep17 4; CLlit 0; CLlit 9; CLrep17 8; CLrep17 6; CLlit 0; CLlit 11; CLrep17 3; CLlit 8; CLlit 0; CLlit 0; CLlit 11; CLrep17 7; CLrep17 5; CLlit 0; CLlit 7; CLrep18 11; CLlit 8; CLlit 6; CLlit 0; CLlit 0; CLlit 6; CLlit 0; CLlit 7; CLlit 0; CLrep17 6; CLlit 7; CLlit 0; CLlit 7; CLrep18 11; CLlit 7; CLlit 0; CLlit 0; CLlit 9; CLrep17 3; CLrep17 5; CLlit 0; CLlit 8; CLlit 9; CLlit 0; CLrep17 3; CLlit 0; CLlit 0; CLlit 6; CLlit 7; CLlit 0; CLlit 0; CLlit 5; CLrep17 3; CLlit 8; CLrep17 4; CLrep17 3; CLlit 8; CLrep17 3; CLlit 0; CLlit 9; CLrep17 3; CLlit 10; CLlit 7; CLrep17 3; CLlit 0; CLlit 6; CLrep17 3; CLlit 10];
+      CSimple [150];
+      CSimple [221; 215];
+      CSimple [140];
+      CSimple [13; 14]]]
+    [TCache 7; TCopy 1 121; TCopy 2 122; TCopy 6 123; TCopy 9 126; TCopy 1 137]).
+
+Example emit_decode_example : decode (emit ex_plan) = Ok (sem ex_plan).
+Proof. vm_compute. reflexivity. Qed.
